@@ -1212,8 +1212,8 @@ fn gen_session(args: &Args, emit: &mut dyn FnMut(String)) {
 }
 
 /// C02: order-preserving loss and duplication; every subset of small sessions
-// sessions whose FDT instance is repeated after the last transfer, with in-band FTI (exposes D44)
-const FDT_REPEAT_INBAND: bool = false;
+// sessions whose FDT instance is repeated after the last transfer, with in-band FTI (D44 was found there)
+const FDT_REPEAT_INBAND: bool = true;
 
 fn gen_loss(args: &Args, emit: &mut dyn FnMut(String)) {
     let thorough = args.tier == "thorough";
